@@ -21,7 +21,7 @@ Definition pend_cfg : config :=
    gate returned nil and runnable 1 was started ([LLaunch 1; LRunCall 1]); now the gate returns the
    queued failure, nothing is started and Run() returns that error. *)
 Definition pend_prefix : list label :=
-  [LLaunch 0; LRunStore 0; LRunCall 0; LMonSub 0; LMonRecv 0; LPollBegin 0; LRunRet 0 (Some (7, false)); LErrSend 0;
+  [LRunEnter; LRunEntered; LLaunch 0; LRunStore 0; LRunCall 0; LMonSub 0; LMonRecv 0; LPollBegin 0; LRunRet 0 (Some (7, false)); LErrSend 0;
    LQuiet; LParentCancel; LPoll 0 false; LGateCtx 0].
 Definition pend_sched : list label :=
   pend_prefix ++ [LMainShutdown; LStopCall 0; LStopRet 0; LSdCancel; LStmExit; LSdWgDone; LMainReturn (ResErr 7)].
@@ -77,7 +77,8 @@ Inductive pe_effect (c : config) (s s' : state) : Prop :=
     waiting (rn_at s i) -> rn s' = upd (rn s) i RnRunning -> main s' = main s -> errq s' = errq s ->
     hist s' = ERunCall i :: hist s -> pe_effect c s s'
 | pe_other :
-    (main s' = main s \/ exists i, main s = MGate i /\ main s' = MGateCheck i) ->
+    (main s' = main s \/ (exists i, main s = MGate i /\ main s' = MGateCheck i) \/
+     (main s = MNew /\ main s' = MEntering) \/ (main s = MEntering /\ main s' = MLaunch 0)) ->
     rn s' = rn s -> errq s' = errq s ->
     (hist s' = hist s \/ exists x, hist s' = x :: hist s /\ is_real_ev x = false /\ is_quiet_ev x = false) ->
     pe_effect c s s'
@@ -101,8 +102,11 @@ Proof.
             simp_st; unfold after_launch; try match goal with |- context [if ?b then _ else _] => destruct b end;
             reflexivity).
   all: try (eapply pe_closed; [eassumption|reflexivity|reflexivity|reflexivity|reflexivity]; fail).
-  all: try (apply pe_other; [right; eexists; split; [eassumption|reflexivity]|reflexivity|reflexivity|
+  all: try (apply pe_other; [right; left; eexists; split; [eassumption|reflexivity]|reflexivity|reflexivity|
             right; eexists; split; [reflexivity|split; reflexivity]]; fail).
+  all: try (apply pe_other; [right; right; first [left; split; [assumption|reflexivity]|right; split; [assumption|reflexivity]]
+                            |reflexivity|reflexivity|
+            first [left; reflexivity|right; eexists; split; [reflexivity|split; reflexivity]]]; fail).
   all: try (eapply pe_open; [first [left; eassumption|right; eassumption]|assumption|
                              reflexivity|reflexivity|reflexivity|reflexivity]; fail).
   all: try (eapply pe_runcall; [first [left; eassumption|right; eassumption]|reflexivity|reflexivity|reflexivity|reflexivity]; fail).
@@ -218,6 +222,8 @@ Proof.
   intros Hn Hre Q Hq. pose proof (InvGate_reachable _ _ Hre) as IG.
   destruct (errq s) as [|e q] eqn:Eq; [congruence|].
   destruct (main s) eqn:Em.
+  - exfalso. pose proof (InvNewQ_reachable _ _ Hre (or_introl Em)). congruence.
+  - exfalso. pose proof (InvNewQ_reachable _ _ Hre (or_intror Em)). congruence.
   - exfalso. pose proof (launch_idx_lt c s Hn Hre _ Em) as Li.
     assert (Hin : In (LLaunch i) (taus_nt c s))
       by (in_chain ltac:(apply in_map_iff; exists i; split; [reflexivity|now apply in_idxs])).
@@ -316,9 +322,10 @@ Proof.
       destruct (B R) as [NL _]. exfalso. exact (NL i Ern).
   - (* everything else *)
     assert (Hd : decided s -> decided s').
-    { unfold decided. destruct Hm as [->|(i & E & _)]; [auto|]. rewrite E. intros X. now contradiction X. }
+    { unfold decided. destruct Hm as [->|[(i & E & _)|[(E & _)|(E & _)]]]; [auto|..]; rewrite E; intros X; now contradiction X. }
     assert (Hg : at_gate s -> at_gate s').
-    { unfold at_gate. destruct Hm as [->|(i & E & ->)]; [auto|]. intros _. exists i. now right. }
+    { unfold at_gate. destruct Hm as [->|[(i & E & ->)|[(E & _)|(E & _)]]]; [auto|intros _; exists i; now right|..];
+        intros (j & [X|X]); rewrite E in X; discriminate X. }
     rewrite Eq. unfold rn_at. rewrite Er. split.
     + intros R. assert (R0 : real_in (hist s) = true).
       { destruct Eh as [Eh|(x & Eh & Hx & _)]; rewrite Eh in R; [exact R|].
@@ -393,10 +400,12 @@ Proof.
     + left. unfold at_gate. rewrite Em, Eq. now split.
     + left. unfold at_gate. rewrite Em, Eq. now split.
     + left. rewrite Eq. split; [|exact Hq]. unfold at_gate in *.
-      destruct Hm as [->|(i & E & ->)]; [exact G|]. exists i. now right.
+      destruct Hm as [->|[(i & E & ->)|[(E & _)|(E & _)]]]; [exact G|exists i; now right|..];
+        exfalso; destruct G as (j & [X|X]); rewrite E in X; discriminate X.
     + left. unfold at_gate. rewrite Em, Eq. now split.
-  - destruct (step_su_effect _ _ _ _ H) as [i Em Es Li Er Em' Es' | i Em Em' Er _ | i Em Em' Er _ | Hm Er | Em Er].
+  - destruct (step_su_effect _ _ _ _ H) as [i Em Es Li Er Em' Es' | i Em Em' Er _ | i Em Em' Er _ | Em Er | Hm _ _ Er | Em Er].
     + exfalso. exact (at_gate_not_launch _ _ Em G).
+    + unfold launched. now rewrite Er.
     + unfold launched. now rewrite Er.
     + unfold launched. now rewrite Er.
     + unfold launched. now rewrite Er.
@@ -420,3 +429,51 @@ Proof.
   - now left.
 Qed.
 
+
+(* C03 (start-up timeout): the start-up deadline is ONE timer per readiness wait, armed when the wait begins
+   (the model is untimed: the step LGateTimeout j is enabled from then on, while Run() is not inside a slow
+   IsRunning() call).  Once it has fired for gate j, Run() has fixed the start-up timeout error as its result, no
+   further runnable is ever started, and that error is what Run() returns. *)
+Theorem sup_c03_startup_timeout_aborts c s j s1 ls s2 :
+  step c s (LGateTimeout j) = Some s1 -> run (step c) s1 ls = Some s2 ->
+  main s = MGate j /\ startup_may_fire c = true /\ su_fired (aux s1) = true /\
+  launched s2 = launched s /\ main_res (main s2) = Some ResTimeout /\
+  (forall r, main s2 = MReturned r -> r = ResTimeout).
+Proof.
+  intros H1 H2. unfold step in H1. cbn [step0] in H1.
+  destruct (main s) eqn:Em; try discriminate H1.
+  destruct (_ && _) eqn:G; [|discriminate H1]. injection H1 as <-.
+  repeat (apply andb_true_iff in G as [G ?]). apply Nat.eqb_eq in G. subst i.
+  assert (P : past_startup (set_main (set_su_fired s) (MExit ResTimeout))) by exact Logic.I.
+  assert (M : main_res (main (set_main (set_su_fired s) (MExit ResTimeout))) = Some ResTimeout) by reflexivity.
+  pose proof (sup_c03_abort c _ ls s2 P H2) as L. pose proof (main_res_run c ls _ _ _ M H2) as R.
+  repeat split; auto.
+  intros r Hr. rewrite Hr in R. cbn in R. congruence.
+Qed.
+
+(* C03 (clean abort, "Run() returns THAT error"): when a readiness wait ends with an error taken from the error
+   queue - the select took errorChan (LGateErr), or the runnable reported ready / the context was cancelled and a
+   failure was already queued (LGateDecide, LGateCtx) - the error taken is the HEAD of the queue, it was really
+   returned by some runnable's Run (not a cancellation), Run() has fixed exactly it as its result, no further
+   runnable is ever started, and it is what Run() returns on every continuation. *)
+Definition gate_fail_label (j : nat) (l : label) : Prop := l = LGateErr j \/ l = LGateDecide j \/ l = LGateCtx j.
+
+Theorem sup_c03_abort_returns_that_error c s j l e q s1 ls s2 :
+  reachable_sup c s -> gate_fail_label j l -> errq s = e :: q -> step c s l = Some s1 ->
+  run (step c) s1 ls = Some s2 ->
+  main s1 = MExit (ResErr e) /\ errq s1 = q /\ In e (real_error_ids (rev (hist s))) /\
+  launched s2 = launched s /\ main_res (main s2) = Some (ResErr e) /\
+  (forall r, main s2 = MReturned r -> r = ResErr e).
+Proof.
+  intros Hre Hl Hq H1 H2.
+  assert (Hs1 : s1 = set_main (set_errq s q) (MExit (ResErr e))).
+  { unfold step in H1. destruct Hl as [->|[->| ->]]; cbn [step0] in H1; rewrite ?Hq in H1;
+      step_cases H1; rewrite ?Hq in H1; injection H1 as <-; reflexivity. }
+  subst s1.
+  assert (P : past_startup (set_main (set_errq s q) (MExit (ResErr e)))) by exact Logic.I.
+  assert (M : main_res (main (set_main (set_errq s q) (MExit (ResErr e)))) = Some (ResErr e)) by reflexivity.
+  pose proof (sup_c03_abort c _ ls s2 P H2) as L. pose proof (main_res_run c ls _ _ _ M H2) as R.
+  split; [reflexivity|]. split; [reflexivity|]. split.
+  - apply real_ids_rev. apply (ie_errq _ _ (InvErr_reachable _ _ Hre)). rewrite Hq. now left.
+  - split; [exact L|]. split; [exact R|]. intros r Hr. rewrite Hr in R. cbn in R. congruence.
+Qed.
